@@ -15,12 +15,21 @@
 //        two fresh nodes with the given private scalars; each solves work for the other with its own
 //        configured difficulty and performs the handshake
 //                                    -> pA=<p> pB=<p> nB=<n|none> nA=<n|none> okA=<b> okB=<b> kA=<hex|-> kB=<hex|->
+//   -- histories (state kept until the next `case` line) --
+//   node <name> <id> <scalar> <bits> <cooldown_s>   create (or replace: "the peer restarts with a new key pair") node <name>
+//                                    -> pub=<p>
+//   mutual <X> <Y>                   each solves work for the other, then X.perform_handshake(Y), Y.perform_handshake(X)
+//                                    -> pX=<p> pY=<p> nY=<n|none> nX=<n|none> okX=<b> okY=<b> kX=<hex|-> kY=<hex|->
+//   hs <X> <peer id> <pub> <nonce>   X.perform_handshake(peer, pub, nonce) -> ok=<b> k=<hex|->
+//   key <X> <peer id>                -> k=<hex|->
 //   hskpub <sA> <idA> <bitsA> <peer> <remote_pub> <nonce>
 //        one fresh node receiving an arbitrary public value / nonce
 //                                    -> ok=<b> k=<hex|->
 #include "src/core/Node.cpp"
 
 #include "common/lineproto.hpp"
+
+#include <map>
 
 #include "ephemeralnet/network/KeyExchange.hpp"
 #include "ephemeralnet/network/KeyManager.hpp"
@@ -39,8 +48,12 @@ Config quiet_config(std::uint8_t bits) {
     return c;
 }
 
-std::unique_ptr<Node> make_node(const std::string& id_tok, std::uint32_t scalar, std::uint8_t bits) {
-    auto n = std::make_unique<Node>(verif::id32(id_tok), quiet_config(bits));
+std::map<std::string, std::unique_ptr<Node>> nodes;
+
+std::unique_ptr<Node> make_node(const std::string& id_tok, std::uint32_t scalar, std::uint8_t bits, long cooldown_s = 5) {
+    Config cfg = quiet_config(bits);
+    cfg.handshake_cooldown = std::chrono::seconds(cooldown_s);
+    auto n = std::make_unique<Node>(verif::id32(id_tok), cfg);
     n->identity_scalar_ = scalar;
     n->identity_public_ = network::KeyExchange::compute_public(scalar);
     return n;
@@ -54,7 +67,7 @@ std::uint32_t u32(const std::string& s) { return static_cast<std::uint32_t>(std:
 
 int main(int argc, char** argv) {
     verif::Handler h;
-    h.reset = [] {};
+    h.reset = [] { nodes.clear(); };
     h.op = [](const std::vector<std::string>& t, const std::string&) -> std::string {
         const auto& op = t[0];
         if (op == "modexp" && t.size() == 4) {
@@ -107,6 +120,36 @@ int main(int argc, char** argv) {
             return "pA=" + std::to_string(a->public_identity()) + " pB=" + std::to_string(b->public_identity()) +
                    " nB=" + nonce_str(nB) + " nA=" + nonce_str(nA) + " okA=" + (okA ? "1" : "0") + " okB=" + (okB ? "1" : "0") +
                    " kA=" + key_hex(a->session_key(b->id())) + " kB=" + key_hex(b->session_key(a->id()));
+        }
+        if (op == "node" && t.size() == 6) {
+            nodes[t[1]] = make_node(t[2], u32(t[3]), static_cast<std::uint8_t>(std::stoul(t[4])), std::stol(t[5]));
+            return "pub=" + std::to_string(nodes[t[1]]->public_identity());
+        }
+        if (op == "mutual" && t.size() == 3) {
+            auto ix = nodes.find(t[1]);
+            auto iy = nodes.find(t[2]);
+            if (ix == nodes.end() || iy == nodes.end() || ix == iy) return "bad-op";
+            Node& x = *ix->second;
+            Node& y = *iy->second;
+            const auto nY = y.generate_handshake_work(x.id());
+            const auto nX = x.generate_handshake_work(y.id());
+            const bool okX = nY && x.perform_handshake(y.id(), y.public_identity(), *nY);
+            const bool okY = nX && y.perform_handshake(x.id(), x.public_identity(), *nX);
+            return "pX=" + std::to_string(x.public_identity()) + " pY=" + std::to_string(y.public_identity()) +
+                   " nY=" + nonce_str(nY) + " nX=" + nonce_str(nX) + " okX=" + (okX ? "1" : "0") + " okY=" + (okY ? "1" : "0") +
+                   " kX=" + key_hex(x.session_key(y.id())) + " kY=" + key_hex(y.session_key(x.id()));
+        }
+        if (op == "hs" && t.size() == 5) {
+            auto ix = nodes.find(t[1]);
+            if (ix == nodes.end()) return "bad-op";
+            const auto peer = verif::id32(t[2]);
+            const bool ok = ix->second->perform_handshake(peer, u32(t[3]), std::stoull(t[4]));
+            return std::string("ok=") + (ok ? "1" : "0") + " k=" + key_hex(ix->second->session_key(peer));
+        }
+        if (op == "key" && t.size() == 3) {
+            auto ix = nodes.find(t[1]);
+            if (ix == nodes.end()) return "bad-op";
+            return "k=" + key_hex(ix->second->session_key(verif::id32(t[2])));
         }
         if (op == "hskpub" && t.size() == 7) {
             auto a = make_node(t[2], u32(t[1]), static_cast<std::uint8_t>(std::stoul(t[3])));
